@@ -222,12 +222,12 @@ func runC01(r *simrt.Run) {
 }
 
 func init() {
-	simrt.Register("C01", &simrt.PropSpec{Fn: runC01,
+	simrt.Register("C01", &simrt.PropSpec{Fn: runC01, RunWallS: 1500, // three replicas of a themed history of up to 400 operations, digests included
 		NonTrivial: func(r *simrt.Run) bool {
 			return r.OKOps() >= 8 && r.Probes["map_range_with_several_keys"] > 0 && r.Probes["pairing_compared"] > 0
 		},
-		Rule:    "the same tape-generated chain history is executed by three replicas whose map ranges in x/ and utils/ (type-driven rewrite through the build overlay) run in sorted, reversed and per-loop shuffled key order; the history comes from a drawn theme: the generic generator (stakes, delegations, subscriptions, projects, policies, relay payments with QoS, epochs, months, clock faults), its rich variant (C02's world: add-ons, extensions, Mixed requirements, selected providers, complaints) or the generator of another chain property (C02-C08, C10-C13, C16-C24, C42; their own oracles are ignored); digests of all KV stores + bank after every transaction and at sampled blocks, and pairing sets of every account x spec at every epoch start, must be identical. Non-trivial = >=8 accepted operations, at least one map range with several keys executed and at least one non-empty pairing compared; distinct = (op,outcome,fault) sequence hash",
-		Real:    chainReal, Stubbed: chainStub,
-		Assume:  append([]string{"only map ranges inside the lava module's x/ and utils/ packages are permuted (cosmos-sdk and other dependencies are not instrumented)", "keepers spawn no goroutines on transaction/block paths (census by tools/maporder run: none in x/ outside generated gateways)"}, chainAssume...),
+		Rule: "the same tape-generated chain history is executed by three replicas whose map ranges in x/ and utils/ (type-driven rewrite through the build overlay) run in sorted, reversed and per-loop shuffled key order; the history comes from a drawn theme: the generic generator (stakes, delegations, subscriptions, projects, policies, relay payments with QoS, epochs, months, clock faults), its rich variant (C02's world: add-ons, extensions, Mixed requirements, selected providers, complaints) or the generator of another chain property (C02-C08, C10-C13, C16-C24, C42; their own oracles are ignored); digests of all KV stores + bank after every transaction and at sampled blocks, and pairing sets of every account x spec at every epoch start, must be identical. Non-trivial = >=8 accepted operations, at least one map range with several keys executed and at least one non-empty pairing compared; distinct = (op,outcome,fault) sequence hash",
+		Real: chainReal, Stubbed: chainStub,
+		Assume: append([]string{"only map ranges inside the lava module's x/ and utils/ packages are permuted (cosmos-sdk and other dependencies are not instrumented)", "keepers spawn no goroutines on transaction/block paths (census by tools/maporder run: none in x/ outside generated gateways)"}, chainAssume...),
 	})
 }
